@@ -432,6 +432,28 @@ where Pr: VInt + Into<usize> + AsPrimitive<usize> + Into<f64> + AsPrimitive<F>, 
             if let Built::Model(m) = &nl { run!(rep, case, expr.chk_dec::<_, P>("NonContiguousLookupDecoderModel (fast)", m)); }
         }
     }
+    // C05 with a caller-provided normalisation that is NOT the sum (too small: cumulatives are clamped; too large: the last symbol
+    // takes the rest): the specification predicts no table here, but the same-named constructors must still build the same model
+    if mode == "c05" && accept && total > F::zero() {
+        for (what, norm) in [("half the sum", total / (F::one() + F::one())), ("twice the sum", total + total), ("3/4 of the sum", (total + total + total) / (F::one() + F::one() + F::one() + F::one()))] {
+            let cc = build(|| CC::<Pr, P>::from_floating_point_probabilities_fast(&w, Some(norm)));
+            let lz = build(|| LZ::<Pr, F, P>::from_floating_point_probabilities_fast(w.clone(), Some(norm)));
+            let cl = build(|| CL::<Pr, P>::from_floating_point_probabilities_fast(&w, Some(norm)));
+            if let (Built::Model(cc), Built::Model(lz)) = (&cc, &lz) {
+                rep.class("fast_wrong_normalization_compared"); rep.checks += 1;
+                for s in 0..n + 1 {
+                    let a = cc.left_cumulative_and_probability(s).map(|(c, p)| (c.to_u128(), nz::<Pr>(p))); let b2 = lz.left_cumulative_and_probability(s).map(|(c, p)| (c.to_u128(), nz::<Pr>(p)));
+                    if a != b2 { rep.mismatch(case, format!("{} weights with normalization = {} ({:?}): eager model gives symbol {} {:?}, lazy model {:?}", fname, what, norm, s, a, b2)); break; }
+                }
+                for q in 0..(1u64 << P.min(10)) {
+                    let qq = Pr::from_u128_trunc(q as u128);
+                    let a = { let (s, c, p) = cc.quantile_function(qq); (s, c.to_u128(), nz::<Pr>(p)) }; let b2 = { let (s, c, p) = lz.quantile_function(qq); (s, c.to_u128(), nz::<Pr>(p)) };
+                    if a != b2 { rep.mismatch(case, format!("{} weights with normalization = {} ({:?}): eager decoder gives {:?} at quantile {}, lazy decoder {:?}", fname, what, norm, a, q, b2)); break; }
+                    if let Built::Model(cl) = &cl { let c3 = { let (s, c, p) = cl.quantile_function(qq); (s, c.to_u128(), nz::<Pr>(p)) }; if a != c3 { rep.mismatch(case, format!("{} weights with normalization = {} ({:?}): eager decoder gives {:?} at quantile {}, lookup decoder {:?}", fname, what, norm, a, q, c3)); break; } }
+                }
+            }
+        }
+    }
 }
 pub fn fast_case<Pr, const P: usize>(case: &Value, mode: &str, rep: &mut Report)
 where Pr: VInt + Into<usize> + AsPrimitive<usize> + Into<f64> + AsPrimitive<f32> + AsPrimitive<f64>, usize: AsPrimitive<Pr>, f64: AsPrimitive<Pr>, f32: AsPrimitive<Pr> {
